@@ -171,15 +171,32 @@ Definition c18_step (rf0 : nat) (quiescent : bool) (prev : obs) (e : event) (cur
 (** ** C13: snapshot gate and checkpoint soundness *)
 Definition chain_of (o : obs) (a : addr) : list nat :=
   match rep_of o a with Some r => o_chain r | None => [] end.
+(* the snapshot request is fanned out to the replicas: the name lookup on the last RW replica works and the name
+   is new there (otherwise the request is refused before anybody is called) *)
+Definition snap_called (prev : obs) (e : event) : bool :=
+  match e with
+  | Snapshot n fs =>
+      match rev (rw_of (o_replicas prev)) with
+      | r0 :: _ => negb (flt fs r0 KHttp) && negb (mem n (chain_of prev r0))
+      | [] => false
+      end
+  | _ => true
+  end.
+
 Definition c13_step (rf0 : nat) (quiescent : bool) (prev : obs) (e : event) (cur : obs) : bool :=
   (match e with
    | Snapshot n fs =>
        (* refused, touching nobody, unless all rf replicas are RW *)
        if Nat.eqb (count_rw (o_replicas prev)) rf0 && Nat.eqb (length (o_replicas prev)) rf0
        then (* taken: on every replica that did not fail it (same point of the write stream: one event) *)
-            if is_ack cur
-            then forallb (fun a => if flt fs a KSnap then true else mem n (chain_of cur a)) (addrs_of (o_replicas prev))
-            else true
+            (if is_ack cur
+             then forallb (fun a => if flt fs a KSnap then true else mem n (chain_of cur a)) (addrs_of (o_replicas prev))
+             else true)
+            (* a replica that failed the snapshot does not stay in service without it *)
+            && (if snap_called prev e
+                then forallb (fun a => if flt fs a KSnap then negb (mem a (in_service (o_replicas cur))) else true)
+                             (addrs_of (o_replicas prev))
+                else true)
        else negb (is_ack cur) && untouched prev cur
    | _ => true
    end)
@@ -273,6 +290,10 @@ Definition c09_step (rf0 : nat) (g : regs) (prev : obs) (e : event) (cur : obs) 
                                  | None => false end) (o_replicas cur)
           else true)
       && Nat.eqb (length starts) 0
+  | Remove a _ | MonFire a _ | MonFail a _ =>
+      (* an attached replica that is removed is no longer counted as registered (it has to register again) *)
+      Nat.eqb (length starts) 0
+      && (if is_ack cur && mem a (addrs_of (o_replicas prev)) then negb (mem a (o_registered cur)) else true)
   | _ => Nat.eqb (length starts) 0
   end.
 
